@@ -184,6 +184,7 @@ p_ini_file_parse (PIniFile	*file,
 	pchar		key[P_INI_FILE_MAX_LINE + 1];
 	pchar		value[P_INI_FILE_MAX_LINE + 1];
 	pint		bom_shift;
+	pboolean	lost_section;
 
 	if (P_UNLIKELY (file == NULL)) {
 		p_error_set_error_p (error,
@@ -208,6 +209,8 @@ p_ini_file_parse (PIniFile	*file,
 	section  = NULL;
 	param    = NULL;
 
+	lost_section = FALSE;
+
 	memset (src_line, 0, sizeof (src_line));
 
 	while (fgets (src_line, sizeof (src_line), in_file) != NULL) {
@@ -228,8 +231,16 @@ p_ini_file_parse (PIniFile	*file,
 
 		dst_line = p_strchomp (src_line + bom_shift);
 
-		if (dst_line == NULL)
+		if (dst_line == NULL) {
+			/* A lost section line must not leave its parameters to the previous section */
+			for (tmp_str = src_line + bom_shift; isspace (* ((const puchar *) tmp_str)); ++tmp_str)
+				;
+
+			if (*tmp_str == '[')
+				lost_section = TRUE;
+
 			continue;
+		}
 
 		/* This should not happen */
 		if (P_UNLIKELY (strlen (dst_line) > P_INI_FILE_MAX_LINE))
@@ -261,7 +272,10 @@ p_ini_file_parse (PIniFile	*file,
 				}
 
 				section = pp_ini_file_section_new (key);
-			}
+
+				lost_section = FALSE;
+			} else
+				lost_section = TRUE;
 		} else if (sscanf (dst_line, "%[^=] = \"%[^\"]\"", key, value) == 2 ||
 			   sscanf (dst_line, "%[^=] = '%[^\']'", key, value) == 2 ||
 			   sscanf (dst_line, "%[^=] = %[^;#]", key, value) == 2) {
@@ -285,7 +299,8 @@ p_ini_file_parse (PIniFile	*file,
 					if (strcmp (value, "\"\"") == 0 || (strcmp (value, "''") == 0))
 						value[0] = '\0';
 
-					if (section != NULL && (param = pp_ini_file_parameter_new (key, value)) != NULL) {
+					if (section != NULL && lost_section == FALSE &&
+					    (param = pp_ini_file_parameter_new (key, value)) != NULL) {
 						tmp_list = p_list_prepend (section->keys, param);
 
 						if (P_UNLIKELY (tmp_list == section->keys))
